@@ -1120,7 +1120,11 @@ bool Builder::ExtractDeps(BuildResult::CommandCompleted& result,
       }
     }
   } else {
-    Fatal("unknown deps type '%s'", deps_type.c_str());
+    // Report it like any other failure to extract dependencies: the build
+    // winds down in order instead of exiting on the spot with commands still
+    // running and job slots taken.
+    *err = "unknown deps type '" + deps_type + "'";
+    return false;
   }
 
   return true;
